@@ -1512,7 +1512,7 @@ class Engine:
         o = st.wobj(o)
         o.data[off:off + n] = cells
 
-    def read_cstr(self, st, a, maxlen=4096):
+    def read_cstr(self, st, a, maxlen=1 << 17):
         """concrete C string at a (forks on symbolic bytes being NUL).  Returns list of cells without the NUL"""
         out = []
         for i in range(maxlen):
